@@ -12,7 +12,7 @@ from . import explore, semh
 from .interp import SV, SB, Panic, Unsupported, Violation
 from .main import Result
 
-PRE = "int a ; const int c = 1 ; bit b ; qubit q ; qubit [ 2 ] r ; duration d = 1 ns ; gate g x { } gate k ( s , t ) x , y { } def f ( int z ) { } const bool j = true ; const float [ 64 ] l = 1.0 ; bool n ; def P ( ) { } def Q ( int y , int z ) { }"
+PRE = "int a ; const int c = 1 ; bit b ; qubit q ; qubit [ 2 ] r ; duration d = 1 ns ; gate g x { } gate k ( s , t ) x , y { } def f ( int z ) { } const bool j = true ; const float [ 64 ] l = 1.0 ; bool n ; def P ( ) { } def Q ( int y , int z ) { } bit [ 2 ] o ; const bit [ 2 ] m = \"00\" ;"
 POOL = "acbqrdgkfUu"
 GATES = {"g": (0, 1), "k": (2, 2), "U": (3, 1)}
 QUANTUM = "qr"
@@ -59,6 +59,12 @@ class H(semh.Base):
         elif k == "assign":
             rhs = self.task[1] if len(self.task) > 1 else "2"
             body = f"{nm('X', 'acbdjln')} = {rhs} ;"
+        elif k == "assign_idx":
+            body = f"{nm('X', 'om')} [ 0 ] = 1 ;"
+        elif k == "binop_idx":
+            _, op, side = self.task
+            op = {"==": "=~ ="}.get(op, op)
+            body = f"r [ 0 ] {op} 1 ;" if side == "l" else f"1 {op} r [ 0 ] ;"
         elif k == "scope":
             _, what, where = self.task
             decl = {"qubit": "qubit w ;", "qreg": "qubit [ 2 ] w ;", "gate": "gate w v { }", "def": "def w ( ) { }"}[what]
@@ -68,7 +74,9 @@ class H(semh.Base):
         elif k == "return":
             _, val, where = self.task
             r = "return 1 ;" if val else "return ;"
-            body = {"global": r, "def": "def e ( ) { %s }" % r, "def_if": "def e ( ) { if ( true ) { %s } }" % r}[where]
+            body = {"global": r, "def": "def e ( ) { %s }" % r, "def_if": "def e ( ) { if ( true ) { %s } }" % r,
+                    "global_if": "if ( true ) { %s }" % r, "global_if_single": "if ( true ) %s" % r, "global_while": "while ( true ) { %s }" % r,
+                    "global_for": "for int i in [ 0 : 1 ] { %s }" % r, "global_nested": "while ( true ) { if ( true ) { %s } }" % r}[where]
         elif k == "delay":
             _, d = self.task
             dd = {"name": nm("X", "acbd"), "ns": "1 ns", "int": "1", "float": "1.5", "dt": "2 dt"}[d]
@@ -154,6 +162,15 @@ class H(semh.Base):
             if clean:
                 P(z3.Implies(X == ord(clean), z3.BoolVal(not errs)), f"assigning `{rhs}` to a non-const variable of its own kind gets diagnostics {kinds}")
             return "assign"
+        if k == "assign_idx":
+            X = V["X"]
+            P(z3.Implies(X == ord("m"), has("MutateConstError")), "assigning to an element of a const register is not reported")
+            P(z3.Implies(X == ord("o"), z3.Not(has("MutateConstError"))), "MutateConstError for an element of a non-const register")
+            return "assign_idx"
+        if k == "binop_idx":
+            if not errs:
+                raise Violation(f"`{self.label()}`: a binary operator applied to a quantum value (an element of a qubit register) is not reported")
+            return "binop_idx"
         if k == "scope":
             _, what, where = self.task
             n = kinds.count("NotInGlobalScopeError")
@@ -166,7 +183,7 @@ class H(semh.Base):
         if k == "return":
             _, val, where = self.task
             n = kinds.count("ReturnInGlobalScopeError")
-            if (where == "global") != (n == 1):
+            if where.startswith("global") != (n == 1):
                 raise Violation(f"`{self.label()}`: ReturnInGlobalScopeError reported {n} times for a return in `{where}`")
             other = [x for x in kinds if x != "ReturnInGlobalScopeError"]
             if other:
@@ -202,7 +219,7 @@ class H(semh.Base):
 
 
 CLEAN = ["U ( 1 , 2 , 3 ) q ;", "g q ; k ( 1 , 2 ) q , r [ 0 ] ;", "inv @ g q ;", "pow ( 2 ) @ k ( 1 , 2 ) r [ 0 ] , r [ 1 ] ;", "b = measure q ;", "reset q ; reset r ;",
-         "a = 2 ; a = c ;", "f ( 1 ) ;", "delay [ d ] q ;", "def e ( int m ) -~ > int { return m ; }", "g r ;", "measure r ;", "barrier q , r ;"]
+         "a = 2 ; a = c ;", "f ( 1 ) ;", "delay [ d ] q ;", "def e ( int m ) -~ > int { return m ; }", "g r ;", "measure r ;", "barrier q , r ;", "b = measure r [ 0 ] ;", "o [ 0 ] = 1 ;", "o = measure r ;"]
 
 
 def build_tasks(quick):
@@ -225,7 +242,14 @@ def build_tasks(quick):
     for what in ("qubit", "qreg", "gate", "def"):
         for where in ("global", "if", "else", "while", "for", "def", "case", "default", "nested"):
             tasks.append(("scope", what, where))
+    tasks.append(("assign_idx",))
+    for op in ("+", "==") :
+        for side in "lr":
+            tasks.append(("binop_idx", op, side))
     for val in (False, True):
+        # `return` inside a block at file level (`if (true) { return; }`) is in a local scope, not "at global scope" in the words of
+        # the property (the same words make a qubit declaration inside such a block "outside the global scope"); the analyser does not
+        # report it and the property does not require it, so it is not a template here
         for where in ("global", "def", "def_if"):
             tasks.append(("return", val, where))
     for d in ("name", "ns", "int", "dt"):
